@@ -1,6 +1,6 @@
 (* C05: trader actions never leave the trader under-margined.  Statements only. *)
 From MP.Model Require Import Prelude U128 SInt Feed Vamm VammOps Token World Engine Runtime.
-From MP.Proofs Require Import Tactics EngineGuards EngineArith CloseFacts MoreFacts OpenRatioFacts.
+From MP.Proofs Require Import Tactics EngineGuards EngineArith CloseFacts MoreFacts OpenRatioFacts Scenario.
 
 (* leverage below 1 or above 1/initial-margin-ratio is rejected *)
 Theorem C05_leverage_bounds : forall w t v s m l lim f r,
@@ -58,3 +58,16 @@ Theorem C05_open_position_ends_margined : forall f w t v s m l lim funds w',
   exists mr, query_margin_ratio w' v t = Ok mr /\ sltb mr (spos (e_maint (ec (w_eng w')))) = false.
 Proof. exact open_position_ends_margined. Qed.
 Print Assumptions C05_open_position_ends_margined.
+
+(* non-vacuity: in the concrete scenario an increasing, a reducing and a reversing OpenPosition all succeed *)
+Definition c05_example : bool :=
+  match scenario with
+  | Ok w =>
+      let ok o := match exec_op (-1) w o with Ok w' => negb (sval (p_size (read_position (w_eng w') 11 21)) =? 0) | Err _ => false end in
+      ok (OEngine 21 (EOpenPosition 11 Buy 1000000 2000000 0) 0) &&
+      ok (OEngine 21 (EOpenPosition 11 Sell 1000000 2000000 0) 0) &&
+      ok (OEngine 21 (EOpenPosition 11 Sell 8000000 2000000 0) 0)
+  | Err _ => false
+  end.
+Example C05_nonvacuous : c05_example = true.
+Proof. vm_compute. reflexivity. Qed.
